@@ -72,6 +72,38 @@ extern "C" {
     fn sdd_wmc(sdd: *const c_void, w: *const c_void) -> f64;
     fn ddnnf_builder_new(order: *mut c_void) -> *mut c_void;
     fn ddnnf_builder_compile_cnf_topdown(b: *const c_void, cnf: *const c_void) -> CPtr;
+    // the remaining exported functions
+    fn var_order_linear(num_vars: usize) -> *mut c_void;
+    fn bdd_new_label(b: *mut c_void) -> u64;
+    fn bdd_num_recursive_calls(b: *mut c_void) -> usize;
+    fn bdd_scratch(f: CPtr, default: usize) -> usize;
+    fn bdd_set_scratch(f: CPtr, val: usize);
+    fn bdd_clear_scratch(f: CPtr);
+    fn print_bdd(f: CPtr) -> *const c_char;
+    fn free_wmc_params_f64(w: *mut c_void);
+    fn free_wmc_params_complex(w: *mut c_void);
+    fn destroy_wmc_params_poly(w: *mut c_void);
+    fn wmc_param_f64_var_weight(w: *mut c_void, var: u64) -> CWeightF64;
+    fn weight_f64_lo(w: CWeightF64) -> f64;
+    fn weight_f64_hi(w: CWeightF64) -> f64;
+    fn wmc_param_complex_var_weight(w: *mut c_void, var: u64) -> CWeightComplex;
+    fn weight_complex_lo(w: CWeightComplex) -> CComplex;
+    fn weight_complex_hi(w: CWeightComplex) -> CComplex;
+    fn wmc_param_poly_var_weight(w: *mut c_void, var: u64) -> CWeightPoly;
+    fn new_polynomial(coeffs: *const f64, len: usize) -> *mut c_void;
+    fn destroy_polynomial(p: *mut c_void);
+}
+
+#[repr(C)]
+#[derive(Clone, Copy)]
+struct CWeightF64(f64, f64);
+#[repr(C)]
+#[derive(Clone, Copy)]
+struct CWeightComplex(CComplex, CComplex);
+#[repr(C)]
+struct CWeightPoly {
+    low: *mut c_void,
+    high: *mut c_void,
 }
 
 #[repr(C)]
@@ -81,11 +113,11 @@ struct CClause {
 }
 
 const K: usize = 12;
-const OPS: [&str; 21] = [
+const OPS: [&str; 22] = [
     "var", "newvar", "neg", "and", "or", "ite", "compose", "eq", "topvar", "low", "high", "mc", "wmcr", "wmcc",
-    "wmcp", "json", "cnt", "cnf", "xor", "sddpipe", "tdpipe",
+    "wmcp", "json", "cnt", "cnf", "xor", "sddpipe", "tdpipe", "cmisc",
 ];
-const W: [usize; 21] = [4, 1, 3, 8, 8, 8, 5, 5, 3, 3, 3, 9, 3, 3, 3, 3, 2, 2, 7, 2, 2];
+const W: [usize; 22] = [4, 1, 3, 8, 8, 8, 5, 5, 3, 3, 3, 9, 3, 3, 3, 3, 2, 2, 7, 2, 2, 5];
 
 fn numv(x: f64) -> Value {
     num(x)
@@ -112,6 +144,8 @@ pub fn record(args: &Args) {
             if custom {
                 let o: Vec<u64> = order.iter().map(|v| *v as u64).collect();
                 robdd_builder_all_table(var_order_new(o.as_ptr(), o.len()))
+            } else if rng.coin() {
+                robdd_builder_all_table(var_order_linear(n0))
             } else {
                 mk_bdd_manager_default_order(n0 as u64)
             }
@@ -165,7 +199,19 @@ fn segment<'a>(nb: &'a RobddBuilder<'a, AllIteTable<BddPtr<'a>>>, cb: *mut c_voi
                 let p = rng.coin();
                 ev["a"] = json!([p as u8]);
                 ev["label"] = json!(nv);
-                produced = Some((guarded(|| nb.new_var(p).1), cguard(&cctx, || unsafe { bdd_new_var(cb, p) })));
+                let two_step = rng.coin();
+                let want = nv as u64;
+                let c = if two_step {
+                    // what bdd_new_var is documented to do, spelled out by the client: a fresh label, then its literal
+                    match cguard(&cctx, || unsafe { bdd_new_label(cb) }) {
+                        Ok(l) if l == want => cguard(&cctx, || unsafe { bdd_var(cb, l, p) }),
+                        Ok(l) => Err(format!("bdd_new_label returned {l} where the native new_label returns {want}")),
+                        Err(m) => Err(m),
+                    }
+                } else {
+                    cguard(&cctx, || unsafe { bdd_new_var(cb, p) })
+                };
+                produced = Some((guarded(|| nb.new_var(p).1), c));
                 nv += 1;
             }
             "neg" => {
@@ -411,6 +457,131 @@ fn segment<'a>(nb: &'a RobddBuilder<'a, AllIteTable<BddPtr<'a>>>, cb: *mut c_voi
                             let mut buf = vec![0f64; 8];
                             let got = polynomial_get_coeffs(r, buf.as_mut_ptr(), 8);
                             json!({"len": n, "c": (0..got).map(|i| numv(buf[i] * sc)).collect::<Vec<_>>()})
+                        }),
+                    ),
+                });
+            }
+            "cmisc" => {
+                // the remaining exported functions, each against the Rust call it wraps
+                let a = arg(rng, &npool);
+                let which = rng.below(5);
+                ev["a"] = json!([a, which]);
+                let (x, cx) = (npool[a], cpool[a]);
+                let ws: Vec<[f64; 4]> = (0..nv).map(|_| [rng.below(9) as f64 / 8.0, rng.below(9) as f64 / 8.0, rng.below(5) as f64 / 8.0, rng.below(5) as f64 / 8.0]).collect();
+                let q = rng.below(nv);
+                let sv = 1 + rng.below(1000);
+                scalar = Some(match which {
+                    0 => (
+                        // per-node scratch through the C ABI: set, read, clear, read (default when empty); constants have no scratch
+                        guarded(|| {
+                            if x.is_const() {
+                                return json!(["const"]);
+                            }
+                            let before = x.scratch::<usize>().unwrap_or(7);
+                            x.set_scratch::<usize>(sv);
+                            let set = x.scratch::<usize>().unwrap_or(7);
+                            x.clear_scratch();
+                            json!([before, set, x.scratch::<usize>().unwrap_or(7)])
+                        }),
+                        cguard(&cctx, || unsafe {
+                            if bdd_is_const(cx) {
+                                return json!(["const"]);
+                            }
+                            let before = bdd_scratch(cx, 7);
+                            bdd_set_scratch(cx, sv);
+                            let set = bdd_scratch(cx, 7);
+                            bdd_clear_scratch(cx);
+                            json!([before, set, bdd_scratch(cx, 7)])
+                        }),
+                    ),
+                    1 => (
+                        guarded(|| json!(x.print_bdd())),
+                        cguard(&cctx, || unsafe { json!(CStr::from_ptr(print_bdd(cx)).to_string_lossy().to_string()) }),
+                    ),
+                    2 => (
+                        // real weights: set, read back through the by-value struct and its accessors, free
+                        guarded(|| {
+                            let mut p = WmcParams::<RealSemiring>::new(HashMap::new());
+                            for (i, w) in ws.iter().enumerate() {
+                                p.set_weight(vl(i), RealSemiring(w[0]), RealSemiring(w[1]));
+                            }
+                            let w = p.var_weight(vl(q));
+                            json!([numv(w.0 .0 * 8.0), numv(w.1 .0 * 8.0)])
+                        }),
+                        cguard(&cctx, || unsafe {
+                            let p = new_wmc_params_f64();
+                            for (i, w) in ws.iter().enumerate() {
+                                wmc_param_f64_set_weight(p, i as u64, w[0], w[1]);
+                            }
+                            let w = wmc_param_f64_var_weight(p, q as u64);
+                            let r = json!([numv(weight_f64_lo(w) * 8.0), numv(weight_f64_hi(w) * 8.0)]);
+                            free_wmc_params_f64(p);
+                            r
+                        }),
+                    ),
+                    3 => (
+                        guarded(|| {
+                            let mut p = WmcParams::<Complex>::new(HashMap::new());
+                            for (i, w) in ws.iter().enumerate() {
+                                p.set_weight(vl(i), Complex { re: w[0], im: w[2] }, Complex { re: w[1], im: w[3] });
+                            }
+                            let w = p.var_weight(vl(q));
+                            json!([numv(w.0.re * 8.0), numv(w.0.im * 8.0), numv(w.1.re * 8.0), numv(w.1.im * 8.0)])
+                        }),
+                        cguard(&cctx, || unsafe {
+                            let p = new_wmc_params_complex();
+                            for (i, w) in ws.iter().enumerate() {
+                                wmc_param_complex_set_weight(p, i as u64, CComplex { re: w[0], im: w[2] }, CComplex { re: w[1], im: w[3] });
+                            }
+                            let w = wmc_param_complex_var_weight(p, q as u64);
+                            let (lo, hi) = (weight_complex_lo(w), weight_complex_hi(w));
+                            let r = json!([numv(lo.re * 8.0), numv(lo.im * 8.0), numv(hi.re * 8.0), numv(hi.im * 8.0)]);
+                            free_wmc_params_complex(p);
+                            r
+                        }),
+                    ),
+                    _ => (
+                        // polynomial weights: new_polynomial (truncated at the documented 32 coefficients), set, read back, destroy;
+                        // and the builder's recursion counter
+                        guarded(|| {
+                            let long: Vec<f64> = (0..40).map(|i| ((i * 3 + sv) % 9) as f64 / 8.0).collect();
+                            let mk = |c: &[f64]| {
+                                let mut r = Polynomial::<RealSemiring>::zero();
+                                for (i, v) in c.iter().take(32).enumerate() {
+                                    r.coefficients[i] = RealSemiring(*v);
+                                }
+                                r.len = c.len().min(32);
+                                r
+                            };
+                            let pl = mk(&long);
+                            let mut p = WmcParams::<Polynomial<RealSemiring>>::new(HashMap::new());
+                            for (i, w) in ws.iter().enumerate() {
+                                p.set_weight(vl(i), mk(&[w[0], w[2]]), mk(&[w[1], w[3]]));
+                            }
+                            let w = p.var_weight(vl(q));
+                            let coeffs = |r: &Polynomial<RealSemiring>| (0..r.len.min(34)).map(|i| numv(r.coefficients[i].0 * 8.0)).collect::<Vec<_>>();
+                            json!({"long_len": pl.len, "long": coeffs(&pl), "lo": coeffs(&w.0), "hi": coeffs(&w.1), "calls": nb.num_recursive_calls()})
+                        }),
+                        cguard(&cctx, || unsafe {
+                            let long: Vec<f64> = (0..40).map(|i| ((i * 3 + sv) % 9) as f64 / 8.0).collect();
+                            let pl = new_polynomial(long.as_ptr(), long.len());
+                            let read = |r: *mut c_void| {
+                                let mut buf = vec![0f64; 34];
+                                let got = polynomial_get_coeffs(r, buf.as_mut_ptr(), 34);
+                                (0..got).map(|i| numv(buf[i] * 8.0)).collect::<Vec<_>>()
+                            };
+                            let p = new_wmc_params_poly();
+                            for (i, w) in ws.iter().enumerate() {
+                                let (lo, hi) = ([w[0], w[2]], [w[1], w[3]]);
+                                wmc_param_poly_set_weight(p, i as u64, lo.as_ptr(), 2, hi.as_ptr(), 2);
+                            }
+                            let w = wmc_param_poly_var_weight(p, q as u64);
+                            let r = json!({"long_len": polynomial_len(pl), "long": read(pl), "lo": read(w.low), "hi": read(w.high), "calls": bdd_num_recursive_calls(cb)});
+                            destroy_polynomial(pl);
+                            destroy_polynomial(w.low);
+                            destroy_polynomial(w.high);
+                            destroy_wmc_params_poly(p);
+                            r
                         }),
                     ),
                 });
